@@ -242,6 +242,56 @@ fn eval_local_store(layout: &[Vec<u8>], with_truncations: bool) -> Result<(Optio
     res
 }
 
+/// Part 5: one large, intact entry between small ones (and a second file after it), fault-free. Whatever the size, the
+/// entry was appended and synced, so recovery returns it bit-identical, decodes it to the update that was written, and
+/// returns the entries around it and in the other file.
+fn eval_large_entry(value_len: usize) -> Result<Option<Found>, String> {
+    let store = InMemoryWalStore::new();
+    let mk = |sig: &str, detail: String| Found { sig: format!("large-entry: {sig}"), detail: format!("undamaged WAL: file 0 = [small, one entry with a value of {value_len} bytes, small], file 1 = [small]: {detail}"), replay: json!({"part": "large-entry", "value_len": value_len}) };
+    let big_value: Vec<u8> = (0..value_len).map(|i| (i as u32).wrapping_mul(2654435761).to_le_bytes()[3]).collect();
+    let deltas = vec![
+        vec![imgx::lww_delta("a", b"1", 1001, 1), imgx::lww_delta("big", &big_value, 1002, 1), imgx::lww_delta("c", b"3", 1003, 1)],
+        vec![imgx::lww_delta("d", b"4", 2001, 1)],
+    ];
+    for file in &deltas {
+        let mut rot = WalRotator::new(store.clone(), BIG).map_err(|e| format!("rotator: {e}"))?;
+        for d in file {
+            let e = WalEntry::from_delta(d, d.value.timestamp.time).map_err(|e| format!("from_delta: {e}"))?;
+            rot.append(&e).map_err(|e| format!("append: {e}"))?;
+        }
+        rot.sync().map_err(|e| format!("sync: {e}"))?;
+    }
+    let rot = WalRotator::new(store.clone(), BIG).map_err(|e| format!("rotator: {e}"))?;
+    let want: Vec<String> = deltas.iter().flatten().map(imgx::canon).collect();
+    let all = match rot.recover_all_entries() {
+        Ok(a) => a,
+        Err(e) => return Ok(Some(mk("recover-error-on-undamaged-store", format!("recover_all_entries returned Err({e})")))),
+    };
+    if all.len() != want.len() {
+        return Ok(Some(mk("entries-not-returned", format!("recover_all_entries returned {} entries, {} were appended", all.len(), want.len()))));
+    }
+    for (i, e) in all.iter().enumerate() {
+        match e.to_delta() {
+            Ok(d) if imgx::canon(&d) == want[i] => {}
+            Ok(_) => return Ok(Some(mk("entry-decodes-to-another-update", format!("entry #{i} (stamp {}) decodes to an update other than the one appended", e.timestamp)))),
+            Err(err) => return Ok(Some(mk("intact-entry-does-not-decode", format!("entry #{i} (stamp {}, {} payload bytes) was returned intact but to_delta() fails: {err}", e.timestamp, e.data.len())))),
+        }
+    }
+    for t in [0u64, 1002, 1003] {
+        let wanted: Vec<&String> = deltas.iter().flatten().zip(&want).filter(|(d, _)| d.value.timestamp.time >= t).map(|(_, w)| w).collect();
+        match rot.recover_entries_after(t) {
+            Err(e) => return Ok(Some(mk("entries-after-error", format!("recover_entries_after({t}) returned Err({e}) on an undamaged store")))),
+            Ok(ds) => {
+                let got: Vec<String> = ds.iter().map(imgx::canon).collect();
+                if got.iter().collect::<Vec<_>>() != wanted {
+                    return Ok(Some(mk("entries-after-differ", format!("recover_entries_after({t}) returned {} updates, {} were appended with a stamp >= {t}", got.len(), wanted.len()))));
+                }
+            }
+        }
+    }
+    Ok(None)
+}
+
 fn regions(f: &FileImg) -> imgx::Regions {
     let mut r: imgx::Regions = vec![
         ("file.magic", 0, 4),
@@ -705,6 +755,13 @@ fn replay(path: &std::path::Path) -> ! {
             let regs = regions(&img.files[m]);
             eval_mutation(&img, &rot, &layout, m, mu, &th, &regs, &mut st)
         }
+        Some("large-entry") => match eval_large_entry(r["value_len"].as_u64().unwrap_or(0) as usize) {
+            Ok(f) => f,
+            Err(e) => {
+                eprintln!("harness: {e}");
+                std::process::exit(2)
+            }
+        },
         Some("local-store") => match eval_local_store(&parse_layout_u8(&r["layout"]), r["with_truncations"].as_bool().unwrap_or(false)) {
             Ok((f, _)) => f,
             Err(e) => {
@@ -867,6 +924,20 @@ fn main() {
         }
     }
 
+    // ---- part 5: one large intact entry ---------------------------------------------------
+    let large_sizes: Vec<usize> = if thorough {
+        vec![65_535, 65_536, (1 << 20) + 1, (4 << 20) - 1, 16 << 20, (16 << 20) + 1, 33 << 20, (64 << 20) + 1, 128 << 20]
+    } else {
+        vec![65_536, (1 << 20) + 1, (16 << 20) + 1]
+    };
+    for (n, r) in large_sizes.iter().zip(par::par_map(&large_sizes, |_, n| eval_large_entry(*n))) {
+        match r {
+            Ok(Some(f)) => rep.violation(f.sig, f.detail, f.replay),
+            Ok(None) => {}
+            Err(e) => rep.machinery_failure(&format!("large-entry case {n}: {e}")),
+        }
+    }
+
     let sample_layout = vec![vec![0u8, 2], vec![1]];
     let sample_img = build_image(&sample_layout).ok();
     let samples = json!([
@@ -893,6 +964,8 @@ fn main() {
         "damage_bounds": if thorough { "1 file: 39 sequences; 2 files: 39^2; 3 files: 39^3 (sequences of 1..3 entries over 3 payload kinds)" } else { "1 file: 39 sequences of 1..3 entries; 2 files: 12^2 (sequences of 1..2 entries); 3 files: 3^3 (1 entry each); 3 payload kinds" },
         "distinct_outcome_classes": outcome_count,
         "outcomes_by_mutation_and_region": stats.table(),
+        "large_entry_value_sizes": large_sizes,
+        "large_entry_rule": "fault-free: file 0 = [small, one entry whose value has the given size, small], file 1 = [small], written by the real rotator; recover_all_entries returns all four bit-identical, each decodes (to_delta) to the update appended, recover_entries_after(T) returns the suffix for T at, before and after the large entry",
         "local_filesystem_store_cases": local_cases,
         "local_filesystem_store_rule": "layouts of the quick damage set written through the repository's LocalWalStore into a scratch directory and read back by a new store and rotator on that directory; for three layouts also every truncation length of the last file on disk",
         "previous_format_cases": old_cases,
